@@ -31,6 +31,8 @@ pub enum Extra {
 	/// the reply to the batch (op 1) arrives in ONE array behind notifications for the unread subscription (op 0) that
 	/// overflow its buffer
 	NotifsThenBatchInOneArray,
+	/// every message from the server carries this JSON whitespace before and after its text
+	Framed(&'static str),
 }
 
 pub struct MatchScenario {
@@ -84,7 +86,7 @@ impl MatchScenario {
 				Extra::UnknownId => env.push(EnvEvent::Raw { after: 1, text: format!(r#"{{"jsonrpc":"2.0","id":{},"result":"stray"}}"#, idtxt(77)) }),
 				Extra::MethodNotif => env.push(EnvEvent::Raw { after: 0, text: r#"{"jsonrpc":"2.0","method":"server_says","params":["stray-notif"]}"#.into() }),
 				Extra::SubNotifUnknown => env.push(EnvEvent::Raw { after: 0, text: r#"{"jsonrpc":"2.0","method":"n","params":{"subscription":"nobody","result":"stray-sub"}}"#.into() }),
-				Extra::NotifsThenBatchInOneArray | Extra::ConstSubscriptionId => {}
+				Extra::NotifsThenBatchInOneArray | Extra::ConstSubscriptionId | Extra::Framed(_) => {}
 				Extra::PackedPair => env.push(EnvEvent::Raw {
 					after: 2,
 					text: format!(r#"[{{"jsonrpc":"2.0","id":{},"result":"packed0"}},{{"jsonrpc":"2.0","id":{},"result":"packed1"}}]"#, idtxt(0), idtxt(1)),
@@ -114,7 +116,7 @@ impl Scenario for MatchScenario {
 		if self.hold_once { &["client:send_task:before_handle", "tx:send", "tx:send:returning"] } else { &[] }
 	}
 	fn setup(&self) -> CliState {
-		clim::setup(&CliScenarioCfg { fail_close: false, ws_builder: None, rx_split: self.rx_split_ping_ms.is_some(), ping_ms: self.rx_split_ping_ms, send_ping_ms: None, fail_ping: false, warmup: self.warmup, id_kind: self.id_kind, ops: self.ops.clone(), env: self.env(), fail_send_at: None, tx_points: self.tx_points, buffer_cap: 4, late_after: if self.ops.contains(&FeOp::LateSubscribe) { 1 } else { 0 } })
+		clim::setup(&CliScenarioCfg { request_timeout_ms: None, frame_ws: self.extras.iter().find_map(|e| if let Extra::Framed(w) = e { Some(*w) } else { None }).unwrap_or(""), fail_close: false, ws_builder: None, rx_split: self.rx_split_ping_ms.is_some(), ping_ms: self.rx_split_ping_ms, send_ping_ms: None, fail_ping: false, warmup: self.warmup, id_kind: self.id_kind, ops: self.ops.clone(), env: self.env(), fail_send_at: None, tx_points: self.tx_points, buffer_cap: 4, late_after: if self.ops.contains(&FeOp::LateSubscribe) { 1 } else { 0 } })
 	}
 	fn judge(&self, st: CliState, _trace: &[String], panics: &[String], status: Status) -> Verdict {
 		let mut v = Vec::new();
@@ -181,7 +183,7 @@ impl Scenario for MatchScenario {
 						continue;
 					};
 					let expected = match op {
-						FeOp::Call | FeOp::LateCall | FeOp::AbandonCall => format!("\"r{k}\""),
+						FeOp::Call | FeOp::LateCall | FeOp::AbandonCall | FeOp::CallPolledLate => format!("\"r{k}\""),
 						FeOp::Subscribe | FeOp::SubscribeDrop | FeOp::SubscribeHold | FeOp::LateSubscribe if self.extras.contains(&Extra::ConstSubscriptionId) => "Subscription(Str(\"SX\"))".to_string(),
 						FeOp::Subscribe | FeOp::SubscribeDrop | FeOp::SubscribeHold | FeOp::LateSubscribe => format!("Subscription(Str(\"S{k}\"))"),
 						FeOp::Batch(n) | FeOp::LateBatch(n) | FeOp::BatchStr(n) => format!("[{}]", (0..*n).map(|j| format!("\"r{k}.{j}\"")).collect::<Vec<_>>().join(",")),
@@ -231,6 +233,104 @@ impl Scenario for MatchScenario {
 		outcome.push(format!("abandon={}", abandon_pos.is_some()));
 		Verdict { violations: v, outcome: outcome.join("|") }
 	}
+}
+
+/// A call whose answer comes in while the application's task is busy: the call future is polled once, then - wherever
+/// the scheduler decides - the task waits (in real time) until the request timeout has expired and only then awaits the
+/// future. If the answer had been delivered, and taken by the client's read task, in good time, the call completes with
+/// it: a response that arrived is not replaced by a timeout error.
+pub struct LatePollScenario {
+	pub id_kind: IdKind,
+	/// a second, ordinary call next to it
+	pub with_other_call: bool,
+}
+
+const LATE_POLL_TIMEOUT_MS: u64 = 300;
+
+impl Scenario for LatePollScenario {
+	type State = CliState;
+	fn name(&self) -> String {
+		format!("cli_mem/late-poll:{:?}:{}", self.id_kind, if self.with_other_call { "with-other-call" } else { "alone" })
+	}
+	fn config(&self) -> Value {
+		json!({"id_kind": format!("{:?}", self.id_kind), "request_timeout_real_ms": LATE_POLL_TIMEOUT_MS, "second_call": self.with_other_call})
+	}
+	fn mask(&self) -> fn(&str) -> bool {
+		mask_nolib
+	}
+	fn setup(&self) -> CliState {
+		let mut ops = vec![FeOp::CallPolledLate];
+		let mut env = vec![EnvEvent::Answer { msg: 0, kind: AnswerKind::Ok }];
+		if self.with_other_call {
+			ops.push(FeOp::Call);
+			env.push(EnvEvent::Answer { msg: 1, kind: AnswerKind::Ok });
+		}
+		clim::setup(&CliScenarioCfg { request_timeout_ms: Some(LATE_POLL_TIMEOUT_MS), frame_ws: "", fail_close: false, ws_builder: None, rx_split: false, ping_ms: None, send_ping_ms: None, fail_ping: false, warmup: 0, id_kind: self.id_kind, ops, env, fail_send_at: None, tx_points: false, buffer_cap: 4, late_after: 0 })
+	}
+	fn judge(&self, st: CliState, _trace: &[String], panics: &[String], status: Status) -> Verdict {
+		let mut v = Vec::new();
+		let l = st.log.lock().unwrap();
+		let sent = st.shared.sent.lock().unwrap().clone();
+		if status != Status::Quiescent {
+			v.push((format!("machinery:{status:?}"), format!("{status:?}")));
+		}
+		for p in panics {
+			v.push(("panic".into(), format!("a client task panicked: {p}")));
+		}
+		let mut outcome = Vec::new();
+		let k = clim::wire_index_of(&sent, &FeOp::CallPolledLate, 0);
+		let answer_pos = k.and_then(|k| {
+			let okt = clim::answer_for(&sent[k], k, &AnswerKind::Ok);
+			l.deliveries.iter().find(|(_, _, t)| *t == okt).map(|(_, p, _)| *p)
+		});
+		let late = l.late_polls.iter().find(|(i, _, _)| *i == 0).copied();
+		match (&l.status[0], late, answer_pos, k) {
+			(OpStatus::Ok(r), _, Some(_), Some(k)) => {
+				outcome.push("late-call:ok".to_string());
+				if *r != format!("\"r{k}\"") {
+					v.push(("wrong-response:late-polled-call".into(), format!("the late-polled call completed with {r}, its response holds \"r{k}\"")));
+				}
+			}
+			(OpStatus::Ok(r), _, None, _) => v.push(("completed-before-answer:late-polled-call".into(), format!("the late-polled call completed with {r} although no answer was delivered"))),
+			(OpStatus::Err(e), Some((_, wait_pos, waited_ms)), Some(ap), _) if ap < wait_pos && (waited_ms as u64) < LATE_POLL_TIMEOUT_MS / 2 => {
+				outcome.push("late-call:err-although-answered".to_string());
+				v.push((
+					"answered-in-time-but-failed:late-polled-call".into(),
+					format!("the answer to the call was delivered and taken by the read task {waited_ms} ms after the call was made (request timeout {LATE_POLL_TIMEOUT_MS} ms); the application awaited the call after the deadline and got {e} instead of the response"),
+				));
+			}
+			(OpStatus::Err(e), _, _, _) => {
+				// the answer came after the deadline had (or may have) passed: a timeout is the right outcome
+				outcome.push(if e.contains("RequestTimeout") { "late-call:timeout".to_string() } else { format!("late-call:err:{}", e.chars().take(30).collect::<String>()) });
+				if !e.contains("RequestTimeout") {
+					v.push(("wrong-error:late-polled-call".into(), format!("the late-polled call failed with {e}")));
+				}
+			}
+			(other, _, _, _) => outcome.push(format!("late-call:{other:?}")),
+		}
+		if self.with_other_call {
+			let k1 = clim::wire_index_of(&sent, &FeOp::Call, 1);
+			match (&l.status[1], k1) {
+				(OpStatus::Ok(r), Some(k1)) if *r == format!("\"r{k1}\"") => outcome.push("other:ok".into()),
+				// its own deadline (the same real 300 ms) may pass while the late-polled call's task blocks the thread
+				(OpStatus::Err(e), _) if e.contains("RequestTimeout") => outcome.push("other:timeout".into()),
+				(s, _) => {
+					outcome.push(format!("other:{s:?}"));
+					v.push(("other-call-disturbed".into(), format!("the ordinary call next to the late-polled one ended as {s:?}")));
+				}
+			}
+		}
+		Verdict { violations: v, outcome: outcome.join("|") }
+	}
+}
+
+pub fn late_poll_scenarios() -> Vec<LatePollScenario> {
+	let mut v = Vec::new();
+	for id_kind in [IdKind::Number, IdKind::String] {
+		v.push(LatePollScenario { id_kind, with_other_call: false });
+	}
+	v.push(LatePollScenario { id_kind: IdKind::Number, with_other_call: true });
+	v
 }
 
 pub fn scenarios(thorough: bool) -> Vec<MatchScenario> {
@@ -347,6 +447,16 @@ pub fn scenarios(thorough: bool) -> Vec<MatchScenario> {
 			}
 		}
 	}
+	// messages framed with JSON whitespace (CR LF framing, pretty-printing proxies): responses, batch arrays and
+	// subscription traffic are recognised behind any of the four JSON whitespace characters
+	for ws in [" ", "\t", "\n", "\r", "\r\n", "\n \t\r"] {
+		for id_kind in [IdKind::Number, IdKind::String] {
+			for ops in [vec![FeOp::Call, FeOp::Call], vec![FeOp::Batch(2), FeOp::Call], vec![FeOp::Subscribe, FeOp::Call]] {
+				let n = ops.len();
+				out.push(MatchScenario { id_kind, ops, answers: vec![Ans::Ok; n], extras: vec![Extra::Framed(ws)], lib_points: false, tx_points: false, rx_split_ping_ms: None, warmup: 0, hold_once: false });
+			}
+		}
+	}
 	out
 }
 
@@ -360,6 +470,12 @@ pub fn check(rep: &Reporter) {
 	for s in &scen {
 		sched::explore_auto(s, rep, if thorough { 300_000 } else { 6_000 }, if thorough { 3 } else { 2 }, if thorough { 10 } else { 50 }, Duration::from_secs(if thorough { 120 } else { 5 }));
 	}
+	// the real-time leg: a call awaited only after its deadline (every position of the scheduler's release relative to the
+	// delivery of the answer; each execution waits for the deadline in real time, so these few trees are small)
+	rep.assume("late-poll leg: the request timeout is real time (300 ms); a case counts only when the answer was taken by the read task within half of it, measured per execution");
+	for s in late_poll_scenarios() {
+		sched::explore_auto(&s, rep, 2_000, 3, 1_000_000, Duration::from_secs(60));
+	}
 }
 
 pub fn dyn_scenarios() -> Vec<Box<dyn sched::DynScenario>> {
@@ -368,6 +484,9 @@ pub fn dyn_scenarios() -> Vec<Box<dyn sched::DynScenario>> {
 		v.push(Box::new(s));
 	}
 	for s in scenarios(false) {
+		v.push(Box::new(s));
+	}
+	for s in late_poll_scenarios() {
 		v.push(Box::new(s));
 	}
 	v
